@@ -116,7 +116,7 @@ def eval_real(c):
     """two runs with the same seeded Generator and differently seeded GLOBAL generator"""
     r = {"case": c, "bad": [], "n": None, "extent": None, "timeout": False}
     try:
-        with limit(c.get("limit", 120)):
+        with limit(c.get("limit", 10)):
             outs, fps = [], []
             for g in (c["gseed"], c["gseed"] + 7919):
                 np.random.seed(g % (2 ** 32))
@@ -127,7 +127,7 @@ def eval_real(c):
                 outs.append(o)
                 fps.append((f0, f1))
     except CaseTimeout:
-        r["timeout"] = True
+        r["timeout"] = True      # termination is not claimed by the property (and see the report: 1 x 1 grids)
         return r
     except Exception as e:
         r["bad"].append((f"{c['fn']}:exception", f"{describe(c)} raised {type(e).__name__}: {e}"))
@@ -164,8 +164,12 @@ class Adversarial:
             return v
         u = g.random()
         if high == TWO_PI or abs(high - TWO_PI) < 1e-9:
-            if u < 0.55:
-                return float([0.0, np.pi / 2, np.pi, 3 * np.pi / 2][g.integers(0, 4)])
+            # only theta = 0 gives an exact displacement (rho, 0): cos/sin of the other float multiples of
+            # pi/2 are off by ~1e-16, which is a NEAR tie (float and exact arithmetic may disagree: skipped)
+            if u < 0.35:
+                return 0.0
+            if u < 0.40:
+                return float([np.pi / 2, np.pi, 3 * np.pi / 2][g.integers(0, 3)])
             return float(g.uniform(low, high))
         if u < 0.4:
             return float(low)
@@ -230,7 +234,7 @@ def prep_bluenoise(c):
     r = {"case": c, "bad": [], "kmis": [], "skip": None}
     rec = RecRng(make_source(c))
     try:
-        with limit(c.get("limit", 120)):
+        with limit(c.get("limit", 10)):
             out = np.array(ps.bluenoise(k, nx, ny, rng=rec))
     except (CaseTimeout, StreamTooLong):
         r["skip"] = "scripted-run-too-long"
@@ -540,14 +544,14 @@ def scripted_cases(tier, seed):
         k = int(g.integers(1, 41))
         if nx * ny * k > budget:
             continue
-        cases.append({"fn": "bluenoise", "mode": "scripted", "k": k, "nx": nx, "ny": ny, "seed": int(g.integers(0, 2 ** 31)), "limit": 60})
+        cases.append({"fn": "bluenoise", "mode": "scripted", "k": k, "nx": nx, "ny": ny, "seed": int(g.integers(0, 2 ** 31)), "limit": 20})
     # a few full-size ones
     for (k, nx, ny) in ([(40, 12, 12), (20, 12, 7), (25, 5, 12)] if tier == "quick" else [(40, 12, 12), (40, 12, 11), (20, 12, 7), (25, 5, 12), (33, 9, 12), (40, 10, 10), (7, 12, 12)]):
-        cases.append({"fn": "bluenoise", "mode": "scripted", "k": k, "nx": nx, "ny": ny, "seed": int(g.integers(0, 2 ** 31)), "limit": 60})
+        cases.append({"fn": "bluenoise", "mode": "scripted", "k": k, "nx": nx, "ny": ny, "seed": int(g.integers(0, 2 ** 31)), "limit": 20})
     na = 150 if tier == "quick" else 1500
     for _ in range(na):
         nx, ny = int(g.integers(1, 6)), int(g.integers(1, 6))
-        cases.append({"fn": "bluenoise", "mode": "adversarial", "k": int(g.integers(1, 13)), "nx": nx, "ny": ny, "seed": int(g.integers(0, 2 ** 31)), "limit": 30})
+        cases.append({"fn": "bluenoise", "mode": "adversarial", "k": int(g.integers(1, 13)), "nx": nx, "ny": ny, "seed": int(g.integers(0, 2 ** 31)), "limit": 10})
     nh = 120 if tier == "quick" else 1200
     for i in range(nh):
         nx, ny = int(g.integers(2, 21)), int(g.integers(2, 21))
